@@ -521,7 +521,27 @@ impl Monitor for C02 {
             }
         };
         for h in 0..calls {
+            let long_y = !ctx.tiny() && spec.sigma >= 3 && k >= 6 && rng.chance(1, 1200);
             let (x, y) = match rng.below(10) {
+                _ if long_y => {
+                    // a short x against a y longer than 2^16, usually with a noisy copy of x near the far end
+                    let m = rng.range(8, 50);
+                    let n = rng.range(66_000, 70_000);
+                    let x = rng.bytes_over(&alpha, m);
+                    let mut y = rng.bytes_over(&alpha, n);
+                    if rng.chance(4, 5) {
+                        let xv = related_read(rng, &x, &alpha);
+                        let at = n - xv.len().min(n) - rng.range(0, 200).min(n - xv.len().min(n));
+                        let l = xv.len().min(n - at);
+                        y[at..at + l].copy_from_slice(&xv[..l]);
+                    }
+                    ctx.count("calls:y_longer_than_65536", 1);
+                    if rng.chance(3, 4) {
+                        (x, y)
+                    } else {
+                        (y, x)
+                    }
+                }
                 0..=3 => {
                     let m = rng.range(0, 12);
                     let n = rng.range(0, 12);
@@ -584,7 +604,7 @@ impl Monitor for C02 {
                 }
                 ctx.count("get_mut_scoring_edits", 1);
             }
-            if rng.chance(1, 10) {
+            if !long_y && rng.chance(1, 10) {
                 w = x.len().max(y.len()) + 1;
                 // w is fixed per object; a wide band needs its own object
                 al = Aligner::with_scoring(spec.scoring(), k, w);
